@@ -36,6 +36,7 @@ spec fn vnew_post(c: AEADBodyCodec, h: RequestHeader, k: Seq<u8>, n: Seq<u8>, ck
 }
 
 //@@ octo-squirrel/src/codec/aead.rs:124-142  enum CipherKind  sha=0afd87d0c4335287
+#[derive(Structural)] // (annotation: the derived == of this field-less enum is structural equality)
 #[derive(Default, Clone, Copy, PartialEq, Eq)]
 pub enum CipherKind {
     Aes128Gcm,
